@@ -19,7 +19,7 @@ def UserGen.docForm (m : Mode) (g : UserGen) : Bool :=
 
 def Prog.docForm (m : Mode) : Prog → Bool
   | .body _ _ => true
-  | .withCm g _ inner => g.docForm m && inner.docForm m
+  | .withCm g args inner => g.docForm m && args.fits && inner.docForm m     -- the call binds: a tuple that does not is a TypeError of the caller
   | .seq p q => p.docForm m && q.docForm m
 
 /-- try/finally semantics: journal and how the program ends -/
@@ -71,7 +71,7 @@ def Ev.isBind (t : Nat) : Ev → Bool
   | _ => false
 
 /-- `n`-fold nesting: `with g₀: with g₁: … inner` -/
-def nest : List (UserGen × Nat) → Prog → Prog
+def nest : List (UserGen × CallArgs) → Prog → Prog
   | [], inner => inner
   | (g, a) :: gs, inner => .withCm g a (nest gs inner)
 
@@ -79,5 +79,38 @@ def nest : List (UserGen × Nat) → Prog → Prog
 def chain : List Prog → Prog
   | [] => .body 0 .normal
   | p :: ps => .seq p (chain ps)
+
+/-! ## Overlapping uses of one manager: every use is its own try/finally
+
+The specification of a history does not know generators, frames or variables: it only remembers, per use, which generator
+function behaviour the use was started with and whether its block is still running. -/
+
+def specOp (entered : List (UserGen × Bool)) : Op → List Ev × OpOut × List (UserGen × Bool)
+  | .enter g args =>
+    match g.setupExc with
+    | some e => ([.setup g.tag args], .enterFailed e, entered ++ [(g, false)])
+    | none => ([.setup g.tag args, .bind g.tag g.value], .entered g.value, entered ++ [(g, true)])
+  | .exit i fin =>
+    match entered[i]? with
+    | some (g, true) =>
+      ([.cleanup g.tag], .exited (match g.cleanupExc with | some c => .raised c | none => fin), entered.set i (g, false))
+    | _ => ([], .ignored, entered)
+
+def specOps : List (UserGen × Bool) → List Op → List (List Ev × OpOut)
+  | _, [] => []
+  | en, op :: rest => let r := specOp en op; (r.1, r.2.1) :: specOps r.2.2 rest
+
+/-- the history stays inside what the property talks about: documented-form generators, calls that bind, no `with` in the quirk
+    situation (decidable, evaluated along the specification) -/
+def histOk (m : Mode) : List (UserGen × Bool) → List Op → Bool
+  | _, [] => true
+  | en, op :: rest =>
+    (match op with
+     | .enter g args => g.docForm m && args.fits
+     | .exit i fin =>
+       match en[i]?, fin with
+       | some (g, true), .raised e => (match g.cleanupExc with | some c => !quirk m c e | none => true)
+       | _, _ => true)
+    && histOk m (specOp en op).2.2 rest
 
 end PedVerif.CtxMgr
